@@ -784,15 +784,73 @@ func natTrimSpace(in *Interp, fn *ssa.Function, args []Value) Value {
 		}
 		return Str{s.B[off : off+len(t)]}
 	}
-	in.requireASCII(s, "strings.TrimSpace")
+	// ASCII white space byte by byte; the non-ASCII white space runes (U+0085, U+00A0, U+1680,
+	// U+2000-200A, U+2028, U+2029, U+202F, U+205F, U+3000) by their exact UTF-8 byte sequences at
+	// either end (any other byte >= 0x80 there starts or ends a rune that is not white space)
 	lo, hi := 0, len(s.B)
-	for lo < hi && in.isSpaceByte(s, lo) {
-		lo++
+	for lo < hi {
+		w := in.spaceSeq(s.B[lo:hi], true)
+		if w == 0 {
+			break
+		}
+		lo += w
 	}
-	for hi > lo && in.isSpaceByte(s, hi-1) {
-		hi--
+	for hi > lo {
+		w := in.spaceSeq(s.B[lo:hi], false)
+		if w == 0 {
+			break
+		}
+		hi -= w
 	}
 	return Str{s.B[lo:hi]}
+}
+
+var nonASCIISpaceSeqs = func() [][]byte {
+	var out [][]byte
+	for _, r := range []rune{0x85, 0xA0, 0x1680, 0x2028, 0x2029, 0x202F, 0x205F, 0x3000} {
+		out = append(out, []byte(string(r)))
+	}
+	for r := rune(0x2000); r <= 0x200A; r++ {
+		out = append(out, []byte(string(r)))
+	}
+	return out
+}()
+
+// spaceSeq: width of the white space rune at the front (or back) of b, 0 if there is none.
+func (in *Interp) spaceSeq(b []*Term, front bool) int {
+	if len(b) == 0 {
+		return 0
+	}
+	edge := b[0]
+	if !front {
+		edge = b[len(b)-1]
+	}
+	if in.branch(in.tb.Lt(edge, in.tb.Int(0x80))) {
+		if in.branch(in.tb.InSet(edge, asciiSpaceSet)) {
+			return 1
+		}
+		return 0
+	}
+	for _, seq := range nonASCIISpaceSeqs {
+		if len(seq) > len(b) {
+			continue
+		}
+		win := b[:len(seq)]
+		if !front {
+			win = b[len(b)-len(seq):]
+		}
+		cond := in.tb.True
+		for i, c := range seq {
+			cond = in.tb.And(cond, in.tb.Eq(win[i], in.tb.Int(int64(c))))
+		}
+		if cond.IsFalse() {
+			continue
+		}
+		if in.branch(cond) {
+			return len(seq)
+		}
+	}
+	return 0
 }
 
 func (in *Interp) matchAt(s Str, i int, sub Str) *Term {
@@ -1166,6 +1224,24 @@ func natUnicodePred(f func(rune) bool) nativeFn {
 		}
 		if in.branch(in.tb.And(in.tb.Le(in.tb.Int(0), r), in.tb.Le(r, in.tb.Int(255)))) {
 			return in.tb.InSet(r, set)
+		}
+		// a symbolic rune above 255 with known bounds (decoded from symbolic UTF-8 bytes): the
+		// predicate as a union of code-point ranges
+		if r.lo != nil && r.hi != nil && r.lo.IsInt64() && r.hi.IsInt64() && r.hi.Int64()-r.lo.Int64() <= 0x10000 && r.lo.Int64() >= 0 {
+			res := in.tb.False
+			lo, hi := r.lo.Int64(), r.hi.Int64()
+			start := int64(-1)
+			for c := lo; c <= hi+1; c++ {
+				on := c <= hi && f(rune(c))
+				if on && start < 0 {
+					start = c
+				}
+				if !on && start >= 0 {
+					res = in.tb.Or(res, in.tb.And(in.tb.Le(in.tb.Int(start), r), in.tb.Le(r, in.tb.Int(c-1))))
+					start = -1
+				}
+			}
+			return res
 		}
 		c := in.concretizeInt(r, "unicode predicate argument")
 		return in.tb.Bool(f(rune(c)))
